@@ -7,6 +7,8 @@ C04 — property theorems. Statement of the property:
   'unsatisfiable' only when no represented concrete value can satisfy the condition.
 -/
 import CweModel.C04.Model
+import CweModel.C04.Bounds
+import CweModel.C04.Intersect
 
 namespace CweModel.C04
 open CweModel.Itv
@@ -33,5 +35,25 @@ theorem data_addBound_err_iff {Id : Type} (f : IntervalDomain → Int → Option
   unfold DataDomain.addBound DataDomain.isEmpty
   cases hr : d.relative <;> cases ht : d.top <;> cases ha : (d.absolute.bind fun v => f v b) <;>
     simp_all
+
+/-- **C04-data-sound.** Refining a `DataDomain` value whose absolute part contains a value `x` satisfying
+the comparison succeeds, keeps `x` in the absolute part and leaves the relative targets and the top flag
+untouched. -/
+theorem data_addBound_sound {Id : Type} (k : BoundKind) (d : DataDomain Id) (a : IntervalDomain)
+    (hd : d.absolute = some a) (ha : a.WF) (hw64 : a.interval.w ≤ 64) (bound : Int)
+    (hb : InRange a.interval.w bound) {x : Int} (hx : a.Mem x) (hR : k.holds a.interval.w x bound) :
+    ∃ d', DataDomain.addBound (IntervalDomain.addBound k) d bound = some d' ∧ d'.relative = d.relative ∧
+      d'.top = d.top ∧ ∃ r, d'.absolute = some r ∧ r.Mem x := by
+  obtain ⟨r, hr, hmem⟩ := addBound_sound k a ha hw64 bound hb hx hR
+  have habs : (d.absolute.bind fun v => IntervalDomain.addBound k v bound) = some r := by
+    rw [hd]; exact hr
+  cases hres : DataDomain.addBound (IntervalDomain.addBound k) d bound with
+  | none =>
+    have := (data_addBound_err_iff (IntervalDomain.addBound k) d bound).mp hres
+    rw [habs] at this
+    exact absurd this.2.2 (by simp)
+  | some d' =>
+    obtain ⟨h1, h2, _, h4⟩ := data_addBound_ok (IntervalDomain.addBound k) d d' bound hres
+    exact ⟨d', rfl, h1, h2, r, by rw [h4, habs], hmem⟩
 
 end CweModel.C04
